@@ -9,7 +9,11 @@ fuzz_target!(|data: &[u8]| {
         return;
     }
     let e = env();
+    begin(data);
     let mode = data[0] % 6;
+    if mode <= 4 && known_extern_hang(&data[1..]) {
+        return;
+    }
     let text = e.dir.join("in.txt");
     std::fs::write(&text, &data[1..]).unwrap();
     let out = e.dir.join("out");
